@@ -96,6 +96,14 @@ pub fn run(ctx: &Ctx) -> Value {
             tw.emit(ev("t.add", json!({"t": tod(t), "d": big(d)}), || { let (r, c) = t.overflowing_add_signed(td); json!({"r": tod(r), "carry": big(c as i128)}) }));
             tw.emit(ev("t.sub", json!({"t": tod(t), "d": big(d)}), || { let (r, c) = t.overflowing_sub_signed(td); json!({"r": tod(r), "carry": big(c as i128)}) }));
             n_arith += 2;
+            if n_arith % 7 == 0 {
+                tw.emit(ev("t.plus", json!({"t": tod(t), "d": big(d), "via": "add_assign"}), || { let mut x = t; x += td; json!({"r": tod(x)}) }));
+                tw.emit(ev("t.minus", json!({"t": tod(t), "d": big(d), "via": "sub_assign"}), || { let mut x = t; x -= td; json!({"r": tod(x)}) }));
+                if d >= 0 { if let Ok(sd) = td.to_std() {
+                    tw.emit(ev("t.plus", json!({"t": tod(t), "d": big(d), "via": "add_assign_std"}), || { let mut x = t; x += sd; json!({"r": tod(x)}) }));
+                    tw.emit(ev("t.minus", json!({"t": tod(t), "d": big(d), "via": "sub_assign_std"}), || { let mut x = t; x -= sd; json!({"r": tod(x)}) }));
+                }}
+            }
             if n_arith % 5 == 0 {
                 tw.emit(ev("t.plus", json!({"t": tod(t), "d": big(d)}), || json!({"r": tod(t + td)})));
                 tw.emit(ev("t.minus", json!({"t": tod(t), "d": big(d)}), || json!({"r": tod(t - td)})));
